@@ -84,6 +84,12 @@ def tieCanon (conv : Char) (hasPrec : Bool) (prec : Int) (x : Rat) (text : List 
   let dl := absQ (absQ (v - x) - u / 2)
   if w1 ≤ w2 && dl ≤ w1 then some (if v > x then v - u else v) else none
 
+/-- the unit of the last digit is FINE against the engine's accumulated error (the window of `tieCanon` is not
+used): only there the question "did the engine see a tie" (`tieSeen`) is asked -/
+def isFine (conv : Char) (hasPrec : Bool) (prec : Int) (x : Rat) : Bool :=
+  if x ≤ 0 || prec > 5000 then false else
+  decide (unitOf conv hasPrec prec x / 4 < x / ((2 ^ 46 : Nat) : Rat))
+
 /-! ### the tie as the engine itself sees it
 
 `tieSeen` = "the scaled value handed to `roundl` has the fractional part exactly 1/2": the lines of `digitsOf`
